@@ -145,3 +145,8 @@ func Done() { dump(); fmt.Println("SV-DONE") }
 // Reencode returns another byte encoding of the same JSON document
 // (insignificant trailing whitespace).
 func Reencode(b []byte) []byte { return append(append([]byte(nil), b...), ' ') }
+
+// NominalSizes: under the symbolic executor serialised records get the given
+// constant size from here on (relational harnesses compare two runs, so only
+// differences matter). Natively a no-op.
+func NominalSizes(n int) {}
